@@ -21,11 +21,12 @@ type prog struct {
 	mode   string
 	static bool // also run the acorn clauses
 	module bool
+	vers   []int // target versions besides the default (0)
 }
 
-func minifyJS(text string, keep bool, mt string) (string, string, string) {
+func minifyJS(text string, keep bool, mt string, version int) (string, string, string) {
 	m := minify.New()
-	m.Add(mt, &js.Minifier{KeepVarNames: keep})
+	m.Add(mt, &js.Minifier{KeepVarNames: keep, Version: version})
 	var out []byte
 	var err error
 	if p := core.Recover(func() { out, err = m.Bytes(mt, []byte(text)) }); p != "" {
@@ -63,6 +64,9 @@ var scopeKinds = []scopeKind{
 	{"finally", func(id int, b, p string) string { return "try{}finally{" + b + "}" }},
 	{"generator", func(id int, b, p string) string { return fmt.Sprintf("(function*(%s){%s})(9%d).next();", p, b, id) }},
 	{"if", func(id int, b, p string) string { return "if(h0()){" + b + "}" }},
+	// the else block after a branch that ends in return: the minifier removes the else and moves the block's statements (and
+	// with them its let/const/class/function declarations) into the surrounding scope
+	{"else-after-return", func(id int, b, p string) string { return "if(typeof h0!='function'){return}else{" + b + "}" }},
 }
 
 func isFuncScope(k string) bool {
@@ -114,20 +118,26 @@ func build(kinds []int, decls []int, scheme []string) string {
 func runProgram(c *core.Check, w *jsoracle.Worker, fam string, idx uint64, p prog, skips map[string]uint64, mu *sync.Mutex) {
 	var variants []string
 	var names []string
-	for _, keep := range []bool{false, true} {
-		out, rej, pan := minifyJS(p.text, keep, map[bool]string{false: "application/javascript", true: "module"}[p.module])
-		if pan != "" {
-			c.Fail(core.Failure{Family: fam, Input: p.text, Kind: "panic", What: pan, Order: idx})
-			return
+	for _, ver := range append([]int{0}, p.vers...) {
+		for _, keep := range []bool{false, true} {
+			out, rej, pan := minifyJS(p.text, keep, map[bool]string{false: "application/javascript", true: "module"}[p.module], ver)
+			if pan != "" {
+				c.Fail(core.Failure{Family: fam, Input: p.text, Kind: "panic", What: pan, Order: idx})
+				return
+			}
+			if rej != "" {
+				mu.Lock()
+				skips[fam+": rejected by the minifier"]++
+				mu.Unlock()
+				return
+			}
+			variants = append(variants, out)
+			if ver == 0 {
+				names = append(names, fmt.Sprintf("KeepVarNames=%v", keep))
+			} else {
+				names = append(names, fmt.Sprintf("KeepVarNames=%v Version=%d", keep, ver))
+			}
 		}
-		if rej != "" {
-			mu.Lock()
-			skips[fam+": rejected by the minifier"]++
-			mu.Unlock()
-			return
-		}
-		variants = append(variants, out)
-		names = append(names, fmt.Sprintf("KeepVarNames=%v", keep))
 	}
 	c.Count(uint64(len(variants)))
 	if variants[0] != variants[1] {
@@ -276,12 +286,12 @@ func genShapes(c *core.Check, emit func(prog) bool) {
 	rec = func(kinds, decls []int) bool {
 		if len(kinds) > 0 {
 			for _, sc := range nameSchemes {
-				if !emit(prog{"e0=1;t0=2;" + "", "fn", false, false}) && false {
+				if !emit(prog{"e0=1;t0=2;" + "", "fn", false, false, nil}) && false {
 					return false
 				}
 				text := build(kinds, decls, sc)
 				text = strings.Replace(text, "var fs=[];", "var fs=[];e0=5;t0=6;", 1)
-				if !emit(prog{text, "fn", len(kinds) == 1, false}) {
+				if !emit(prog{text, "fn", len(kinds) == 1, false, nil}) {
 					return false
 				}
 			}
@@ -291,6 +301,9 @@ func genShapes(c *core.Check, emit func(prog) bool) {
 		}
 		for k := 0; k < nk; k++ {
 			for d := 0; d < nd; d++ {
+				if scopeKinds[k].name == "else-after-return" && strings.HasPrefix(declKinds[d], "function ") {
+					continue // a block-level function whose block is dissolved: Annex B name clashes are outside the domain
+				}
 				if !rec(append(append([]int{}, kinds...), k), append(append([]int{}, decls...), d)) {
 					return false
 				}
@@ -353,7 +366,7 @@ func genVarHoisting(c *core.Check, emit func(prog) bool) {
 							// no further var in the tail: a for-of binding would be the least used function-level name and shield the others
 							fmt.Fprintf(&fn, "h1('out',%s);fs.forEach(function(f){h1('c',f())})}", strings.Join(all, ","))
 							_ = bi
-							if !emit(prog{fn.String(), "fn", false, false}) {
+							if !emit(prog{fn.String(), "fn", false, false, nil}) {
 								return
 							}
 						}
@@ -393,7 +406,7 @@ func genDeepCapture(c *core.Check, emit func(prog) bool) {
 			for _, k := range kinds {
 				for _, after := range []bool{false, true} {
 					text := "function F(h0,h1){var total=10,other=h0();return (" + open(k, 1) + body(1, d, mask, k, after) + k[1] + ")(1)}"
-					if !emit(prog{text, "fn", false, false}) {
+					if !emit(prog{text, "fn", false, false, nil}) {
 						return
 					}
 				}
@@ -429,7 +442,7 @@ func genFreeNames(c *core.Check, emit func(prog) bool) {
 				fmt.Fprintf(&b, "%s,", f)
 			}
 			b.WriteString("L0]})()]})()}")
-			if !emit(prog{b.String(), "fn", false, false}) {
+			if !emit(prog{b.String(), "fn", false, false, nil}) {
 				return
 			}
 		}
@@ -484,7 +497,7 @@ func genLargeScopes(c *core.Check, emit func(prog) bool) {
 			} else {
 				b.WriteString("return s}")
 			}
-			if !emit(prog{b.String(), "fn", n <= 130, false}) {
+			if !emit(prog{b.String(), "fn", n <= 130, false, nil}) {
 				return
 			}
 		}
@@ -514,6 +527,14 @@ func genWith(c *core.Check, emit func(prog) bool) {
 		"with(wobj){(function(deep){h1(deep,c)})(20)}",
 		"switch(1){case 1:let sw=21;with(wobj)h1(sw,u)}",
 		"class C2{m(cm){with(wobj)h1(cm,d)}}new C2().m(22)",
+		// methods, getters and setters of object literals are sloppy code and may hold a with statement; nothing of the
+		// enclosing function is referenced inside these with bodies (the result goes to a global)
+		"var om={m(mp){with(wobj)g1=[mp,e]}};om.m(23)",
+		"var og={get g(){var gl=24;with(wobj)g1=[gl,t];return 1}};h1(og.g)",
+		"var os={set s(sv){with(wobj)g1=[sv,n]}};os.s=25",
+		"var oa={async m(am){with(wobj)g1=[am,i]}};oa.m(26)",
+		"var og2={*g(gm){with(wobj)g1=[gm,o]}};og2.g(27).next()",
+		"var oc={['k'+1](cp){var cl=cp+1;with(wobj){g1=[cp,cl,a]}}};oc.k1(28)",
 	}
 	for _, b := range before {
 		for _, sc := range scopes {
@@ -521,8 +542,37 @@ func genWith(c *core.Check, emit func(prog) bool) {
 				continue // class bodies are strict: no with
 			}
 			for _, tail := range []string{"", b} {
-				if !emit(prog{"function F(h0,h1){" + wobj + b + sc + ";" + tail + "}", "fn", false, false}) {
+				if !emit(prog{"function F(h0,h1){" + wobj + b + sc + ";" + tail + "}", "fn", false, false, nil}) {
 					return
+				}
+			}
+		}
+	}
+}
+
+// catch parameters: used and unused, named like the renamer's first picks, under targets that keep or drop an unused binding
+func genCatch(c *core.Check, emit func(prog) bool) {
+	params := [][]string{{"fallback"}, {"fallback", "second"}, {"fallback", "second", "third"}}
+	cps := []string{"e", "t", "n", "r", "i", "o", "err"}
+	handlers := []string{"res.push(USE)", "let hl=USE;res.push(hl)", "const hc=[USE];res.push(hc)", "res.push((()=>[USE])())", "res.push(function(){return [USE]}())", "var hv=USE;res.push(hv)", "{let hb=USE;res.push(hb)}", "res.push(USE,typeof CP)", "res.push(USE,CP instanceof TypeError)", "for(let hi of [USE])res.push(hi)", "try{null.x}catch(CP2){res.push(USE)}", "try{null.x}catch{res.push(USE)}"}
+	bindings := []string{"catch(CP)", "catch({message:CP})", "catch([CP])", "catch"}
+	for _, ps := range params {
+		for _, cp := range cps {
+			for _, h := range handlers {
+				for _, b := range bindings {
+					if b == "catch" && strings.Contains(h, "CP ") || b == "catch" && strings.Contains(h, "typeof CP") {
+						continue
+					}
+					use := strings.Join(ps, ",")
+					var args []string
+					for i := range ps {
+						args = append(args, fmt.Sprint(41+i))
+					}
+					body := strings.NewReplacer("USE", use, "CP2", cp+"2", "CP", cp).Replace("try{null.x}" + b + "{" + h + "}")
+					text := "function F(h0,h1){var res=[];(function(" + use + "){" + body + "})(" + strings.Join(args, ",") + ");h1(res)}"
+					if !emit(prog{text: text, mode: "fn", vers: []int{2018, 5}}) {
+						return
+					}
 				}
 			}
 		}
@@ -558,7 +608,7 @@ func genPublic(c *core.Check, emit func(prog) bool) {
 		if strings.Contains(s, "eval('loc')") {
 			continue // direct eval reaching local names: outside the domain
 		}
-		if !emit(prog{s, mode, true, false}) {
+		if !emit(prog{s, mode, true, false, nil}) {
 			return
 		}
 	}
@@ -567,7 +617,7 @@ func genPublic(c *core.Check, emit func(prog) bool) {
 		"export let a=1,b=2;let hidden=a+b;export {hidden as visible}",
 	}
 	for _, s := range modules {
-		if !emit(prog{s, "global", true, true}) {
+		if !emit(prog{s, "global", true, true, nil}) {
 			return
 		}
 	}
@@ -575,7 +625,7 @@ func genPublic(c *core.Check, emit func(prog) bool) {
 
 // Run executes C02.
 func Run(c *core.Check) {
-	c.Rule = "scope shapes: every chain of <=2 (thorough <=3) nested scopes over 12 scope kinds (function, arrow, method, class method, generator, block, for, for-of, switch, catch, finally, if) x 9 declaration kinds per scope (var/let/const/function/class/parameter default/object and array patterns/separate assignment) x 4 naming schemes (distinct, shadowing, names equal to the renamer's first picks); every declaration has its own constant, every use site logs what it resolves to before and after the inner scope, closures are called at the end; var hoisting: 0-3 function-level var statements x 10 block shapes (if, block, for, try, catch, switch, for-of, while, nested) x 0-2 let/const x a var with 1-3 declarators in the block x 0-1 later var x every subset of the outer names used inside the block; deep capture: a variable used 2-5 (thorough 7) function levels below its declaration x every subset of intermediate levels using it x 3 function kinds x use before/after the nested function is created; with: 11 scope kinds holding a local inside a function with a with statement whose object has a sentinel property for each of the renamer's first picks x 11 kinds of statement minified before it; free-variable families with globals named like generated names; one scope with N bindings for N up to 3700 (all N in thorough) with and without two-letter globals; public-name programs (properties, labels, top-level declarations, with, imports/exports) checked statically with acorn. Executed for KeepVarNames off and on. Non-trivial = renamed output differs from the name-keeping output"
+	c.Rule = "scope shapes: every chain of <=2 (thorough <=3) nested scopes over 13 scope kinds (function, arrow, method, class method, generator, block, for, for-of, switch, catch, finally, if, else block after a returning branch) x 9 declaration kinds per scope (var/let/const/function/class/parameter default/object and array patterns/separate assignment) x 4 naming schemes (distinct, shadowing, names equal to the renamer's first picks); every declaration has its own constant, every use site logs what it resolves to before and after the inner scope, closures are called at the end; var hoisting: 0-3 function-level var statements x 10 block shapes (if, block, for, try, catch, switch, for-of, while, nested) x 0-2 let/const x a var with 1-3 declarators in the block x 0-1 later var x every subset of the outer names used inside the block; deep capture: a variable used 2-5 (thorough 7) function levels below its declaration x every subset of intermediate levels using it x 3 function kinds x use before/after the nested function is created; catch parameters: 3 parameter lists x 7 catch parameter names (the renamer's first picks) x 12 handler bodies x 4 binding forms, also for targets ES2018 and ES5 (which keep an unused binding); with: 18 scope kinds (also object-literal methods, getters, setters) holding a local inside a function with a with statement whose object has a sentinel property for each of the renamer's first picks x 11 kinds of statement minified before it; free-variable families with globals named like generated names; one scope with N bindings for N up to 3700 (all N in thorough) with and without two-letter globals; public-name programs (properties, labels, top-level declarations, with, imports/exports) checked statically with acorn. Executed for KeepVarNames off and on. Non-trivial = renamed output differs from the name-keeping output"
 	c.Assumptions = []string{"V8 as engine and acorn 8.16 as parser (both from node 20)", "direct eval / Function reaching local names is outside the domain"}
 	pool, err := jsoracle.NewPool(core.Workers())
 	if err != nil {
@@ -589,7 +639,7 @@ func Run(c *core.Check) {
 	fams := []struct {
 		name string
 		gen  func(*core.Check, func(prog) bool)
-	}{{"scope-shapes", genShapes}, {"var-hoisting", genVarHoisting}, {"deep-capture", genDeepCapture}, {"with-capture", genWith}, {"free-names", genFreeNames}, {"large-scopes", genLargeScopes}, {"public-names", genPublic}}
+	}{{"scope-shapes", genShapes}, {"var-hoisting", genVarHoisting}, {"deep-capture", genDeepCapture}, {"with-capture", genWith}, {"catch-parameters", genCatch}, {"free-names", genFreeNames}, {"large-scopes", genLargeScopes}, {"public-names", genPublic}}
 	for _, f := range fams {
 		fam := f
 		type job struct {
@@ -650,7 +700,11 @@ func Replay(f core.Failure) (string, string) {
 	}
 	defer pool.Close()
 	keep := strings.Contains(f.Config, "true")
-	out, rej, pan := minifyJS(f.Input, keep, "application/javascript")
+	ver := 0
+	if i := strings.Index(f.Config, "Version="); i >= 0 {
+		fmt.Sscanf(f.Config[i:], "Version=%d", &ver)
+	}
+	out, rej, pan := minifyJS(f.Input, keep, "application/javascript", ver)
 	if pan != "" {
 		return "panic", pan
 	}
